@@ -144,8 +144,10 @@ def op_unary(name, a, P):
     if name == "Lgamma":
         if x <= 0:
             raise Domain()
-        # math.Lgamma of the Go library is accurate to a few 1e-15 absolute near its zeros at 1 and 2
-        return unary(a, mp.loggamma(x), mp.digamma(x), mp.polygamma(1, x), P, 0, 0, 1)
+        # math.Lgamma of the Go library is accurate to a few 1e-15 absolute (about 18 units of 2^-52) near
+        # its zeros at 1 and 2; the allowance must survive partial cancellation against the other
+        # perturbations of the program
+        return unary(a, mp.loggamma(x), mp.digamma(x), mp.polygamma(1, x), P, 0, 0, 8)
     raise KeyError(name)
 
 
